@@ -495,12 +495,133 @@ impl<'u> Sem<'u> {
         })
     }
 
+    /// C++ list initialisation of `ty` from a braced list (the Metal dialect). Aggregates take their members in order
+    /// with brace elision; a clause that can initialise a whole member does so (a scalar initialises a vector member by
+    /// replication, Metal's implicit scalar-to-vector conversion); a vector initialised directly by the list takes its
+    /// components one by one; members without a clause are zero.
+    fn cpp_list_init(&mut self, ty: &Ty, items: &[Init]) -> R<V> {
+        let mut evaluated: Vec<CppClause> = Vec::new();
+        for i in items {
+            evaluated.push(self.cpp_clause(i)?);
+        }
+        let mut cursor = 0usize;
+        let v = self.cpp_init_direct(ty, &evaluated, &mut cursor)?;
+        if cursor < evaluated.len() {
+            return bad("too many initialiser values");
+        }
+        Ok(v)
+    }
+
+    fn cpp_clause(&mut self, i: &Init) -> R<CppClause> {
+        Ok(match i {
+            Init::Expr(e) => {
+                let (v, t) = self.eval(e)?;
+                CppClause::Value(v, t)
+            }
+            Init::List(items) => {
+                let mut inner = Vec::new();
+                for x in items {
+                    inner.push(self.cpp_clause(x)?);
+                }
+                CppClause::List(inner)
+            }
+        })
+    }
+
+    /// `ty` is initialised by the clauses of one list, starting at `cursor`
+    fn cpp_init_direct(&mut self, ty: &Ty, clauses: &[CppClause], cursor: &mut usize) -> R<V> {
+        match ty {
+            Ty::Num(_, 1) | Ty::Enum(_) => {
+                if *cursor >= clauses.len() {
+                    return self.zero(ty);
+                }
+                self.cpp_init_member(ty, clauses, cursor)
+            }
+            Ty::Num(k, n) => {
+                // components one by one; a vector clause contributes all of its components
+                let mut comps: Vec<V> = Vec::new();
+                while comps.len() < *n && *cursor < clauses.len() {
+                    match &clauses[*cursor] {
+                        CppClause::Value(v, Ty::Num(_, _)) => {
+                            let mut flat = Vec::new();
+                            flatten_value(v, &mut flat);
+                            if comps.len() + flat.len() > *n {
+                                return bad("too many components for a vector");
+                            }
+                            comps.extend(flat.iter().map(|x| conv_scalar(x, *k)));
+                            *cursor += 1;
+                        }
+                        _ => return bad("vector component initialised by something that is not a number"),
+                    }
+                }
+                while comps.len() < *n {
+                    comps.push(V::zero(*k));
+                }
+                Ok(V::Vec(comps))
+            }
+            Ty::Struct(i) => {
+                let fields: Vec<(TyE, Vec<usize>)> = self.u.structs[*i].fields.iter().map(|(ft, _, dims)| (ft.clone(), dims.clone())).collect();
+                let mut f = Vec::new();
+                for (ft, dims) in fields {
+                    let t = self.with_dims(self.ty(&ft)?, &dims);
+                    f.push(if *cursor < clauses.len() { self.cpp_init_member(&t, clauses, cursor)? } else { self.zero(&t)? });
+                }
+                Ok(V::Struct(f))
+            }
+            Ty::Array(inner, n) => {
+                let mut a = Vec::new();
+                for _ in 0..*n {
+                    a.push(if *cursor < clauses.len() { self.cpp_init_member(inner, clauses, cursor)? } else { self.zero(inner)? });
+                }
+                Ok(V::Array(a))
+            }
+            Ty::Void | Ty::TrueType => Ok(V::Void),
+        }
+    }
+
+    /// a member of type `ty` takes the next clause, or with brace elision the next clauses
+    fn cpp_init_member(&mut self, ty: &Ty, clauses: &[CppClause], cursor: &mut usize) -> R<V> {
+        match &clauses[*cursor] {
+            CppClause::List(inner) => {
+                *cursor += 1;
+                let mut c = 0usize;
+                let inner = inner.clone();
+                let v = self.cpp_init_direct(ty, &inner, &mut c)?;
+                if c < inner.len() {
+                    return bad("too many initialiser values");
+                }
+                Ok(v)
+            }
+            CppClause::Value(v, t) => {
+                let whole = match (ty, t) {
+                    (Ty::Num(_, 1), Ty::Num(_, 1)) | (Ty::Enum(_), Ty::Num(_, 1)) | (Ty::Num(_, 1), Ty::Enum(_)) | (Ty::Enum(_), Ty::Enum(_)) => true,
+                    // scalar to vector: replicated; vector to vector of the same size
+                    (Ty::Num(_, _), Ty::Num(_, 1)) => true,
+                    (Ty::Num(_, n), Ty::Num(_, m)) => n == m,
+                    (Ty::Struct(a), Ty::Struct(b)) => a == b,
+                    (Ty::Array(..), Ty::Array(..)) => ty == t,
+                    _ => false,
+                };
+                if whole {
+                    *cursor += 1;
+                    let (v, t) = (v.clone(), t.clone());
+                    return self.convert(&v, &t, ty, false);
+                }
+                match ty {
+                    Ty::Struct(_) | Ty::Array(..) => self.cpp_init_direct(ty, clauses, cursor),
+                    _ => bad(format!("initialiser of type {:?} for a member of type {:?}", t, ty)),
+                }
+            }
+        }
+    }
+
     fn initializer(&mut self, i: &Init, ty: &Ty) -> R<V> {
         match i {
             Init::Expr(e) => {
                 let (v, t) = self.eval(e)?;
                 self.convert(&v, &t, ty, false)
             }
+            Init::List(items) if self.d == Dialect::Msl => self.cpp_list_init(ty, items),
             Init::List(_) => {
                 let mut leaves = Vec::new();
                 self.flatten(i, &mut leaves)?;
@@ -825,19 +946,7 @@ impl<'u> Sem<'u> {
                 if self.d != Dialect::Msl {
                     return bad("braced temporary in HLSL");
                 }
-                let mut leaves = Vec::new();
-                for i in items {
-                    self.flatten(i, &mut leaves)?;
-                }
-                let want = self.leaf_count(&to)?;
-                if leaves.len() > want {
-                    return bad("too many initialiser values");
-                }
-                // C++ aggregate initialisation: members without an initialiser are zero
-                while leaves.len() < want {
-                    leaves.push(V::LitI(0));
-                }
-                (self.fill(&to, &mut leaves.into_iter())?, to)
+                (self.cpp_list_init(&to, items)?, to)
             }
             Ex::MCall(obj, m, args) => {
                 let pl = match self.place(obj)? {
@@ -1505,6 +1614,12 @@ fn first_scalar(v: &V) -> V {
         V::Vec(c) => c.first().cloned().unwrap_or(V::Int(0)),
         other => other.clone(),
     }
+}
+
+#[derive(Clone, Debug)]
+enum CppClause {
+    Value(V, Ty),
+    List(Vec<CppClause>),
 }
 
 fn flatten_value(v: &V, out: &mut Vec<V>) {
